@@ -108,23 +108,24 @@ Fixpoint readfrom_vec (closed : bool) (sc : script) (need : N) (views : list N) 
       end
   end.
 
-(** io.Copy(ioutil.Discard, io.LimitReader(r, left)): Reads of min(left, 8192) until left = 0 or an error *)
-Inductive discres := DBlock | DDone (rest : list N) (sc : script) | DEof (n : N) (rest : list N) (sc : script).
+(** io.Copy(ioutil.Discard, io.LimitReader(r, left)): Reads of min(left, 8192) until left = 0 or
+    an error (which recv ignores); result: how many bytes were thrown away *)
+Inductive discres := DBlock | DGot (n : N) (rest : list N) (sc : script).
 
 Fixpoint discard (closed : bool) (sc : script) (left : N) (s : list N) {struct sc} : discres :=
-  if left =? 0 then DDone s sc else
+  if left =? 0 then DGot 0 s sc else
   match sc with
   | [] =>
-      if left <=? len s then DDone (dropN left s) []
-      else if closed then DEof (len s) [] [] else DBlock
+      if left <=? len s then DGot left (dropN left s) []
+      else if closed then DGot (len s) [] [] else DBlock
   | e :: sc' =>
       match read1 closed e (N.min left discardChunk) s with
       | RdBlock => DBlock
       | RdGot got eof rest =>
-          if eof then DEof (len got) rest sc'
+          if eof then DGot (len got) rest sc'
           else match discard closed sc' (left - len got) rest with
-               | DEof m r c => DEof (len got + m) r c
-               | other => other
+               | DGot m r c => DGot (len got + m) r c
+               | DBlock => DBlock
                end
       end
   end.
@@ -160,8 +161,7 @@ Section RecvRd.
           | PDiscard t =>
               match discard closed sc1 remaining s1 with
               | DBlock => RR NeedMore s sc
-              | DDone r c => RR (Reject t size) r c
-              | DEof n r c => RR (Reject t (headerLength + n)) r c
+              | DGot n r c => RR (Reject t (headerLength + n)) r c
               end
           | PBody fixed =>
               match read_bufs p closed sc1 (body_bufs fixed remaining) s1 with
